@@ -7,6 +7,13 @@
 pub open spec fn strip_root(p: Comps) -> Comps { if is_abs(p) { p.skip(1) } else { p } }
 pub open spec fn spec_mash(d: Comps, p: Comps) -> Comps { collect_spec(Seq::empty(), collect_spec(d, strip_root(p))) }
 impl PathBuf {
+    // PathExt::dir (ASSUMED[dir-contract]: proved for the free function in unit path_helpers): the path without its last component
+    #[verifier::external_body]
+    pub fn dir(&self) -> (r: RvResult<PathBuf>)
+        ensures (self.comps().len() == 0 || self.comps() == seq![Component::RootDir]) ==> r is Err && r->Err_0.kind == ErrKind::ParentNotFound,
+                !(self.comps().len() == 0 || self.comps() == seq![Component::RootDir]) ==> r is Ok && r->Ok_0.comps() == self.comps().drop_last(),
+    { unimplemented!() }
+
     // ASSUMED[mash-contract]: PathExt::mash (proved in unit path_helpers)
     #[verifier::external_body]
     pub fn mash_lit(&self, lit: &'static str) -> (r: PathBuf) ensures r.comps() == spec_mash(self.comps(), parse(lit@)) { unimplemented!() }
